@@ -754,17 +754,19 @@ class Executor:
             state["elapsed"] += interval
             if now != state["snap"] and state["elapsed"] < cap:
                 state["snap"] = now
-                signal.setitimer(signal.ITIMER_REAL, interval)
+                signal.setitimer(signal.ITIMER_VIRTUAL, interval)
                 return
             CLOCK.expired = "wall" if now == state["snap"] else "slowcap"
             CLOCK.site = site_of_stack(frame)
             raise SimDeadline(CLOCK.expired)
         state["snap"] = CLOCK.ticks + CLOCK.lex_ticks
-        signal.signal(signal.SIGALRM, on_alarm)
-        signal.setitimer(signal.ITIMER_REAL, interval)
+        # CPU time of this process, not wall time: a child that is merely descheduled on a loaded machine
+        # must not look stuck (a blocked child is the parent's business: it is killed and re-run alone)
+        signal.signal(signal.SIGVTALRM, on_alarm)
+        signal.setitimer(signal.ITIMER_VIRTUAL, interval)
 
     def disarm_wall(self):
-        signal.setitimer(signal.ITIMER_REAL, 0)
+        signal.setitimer(signal.ITIMER_VIRTUAL, 0)
 
     # ---- op: CLI-level run of the real main() -------------------------------------------------------
     def op_cli(self, op):
